@@ -85,7 +85,7 @@ theorem recent_eq (s : State) (n : Int) :
   intro a _; simp
 
 theorem effLimit_pos (n : Int) : 1 ≤ effLimit n := by
-  unfold effLimit
+  unfold effLimit Gen.History.viewDefault
   split <;> omega
 
 /-! ### frequency table -/
